@@ -101,7 +101,11 @@ Cast(a, b, v) ==
         ELSE IF Kind(b) = "b" THEN (IF IsNaN(v) \/ v[1] # 0 THEN 1 ELSE 0)
         ELSE Wrap(b, IF v[1] >= 0 THEN v[1] \div v[2] ELSE -((-v[1]) \div v[2])))    \* truncation toward zero
   ELSE (IF IsFlt(b) THEN <<v, 1>> ELSE Wrap(b, v))
-CastOK(a, b, v) == ~(IsFlt(a) /\ ~IsFlt(b) /\ Kind(b) # "b" /\ v[2] = 0)      \* NaN / inf to an integer dtype: undefined
+CastOK(a, b, v) ==
+  /\ ~(IsFlt(a) /\ ~IsFlt(b) /\ Kind(b) # "b" /\ v[2] = 0)           \* NaN / inf to an integer dtype: undefined
+  /\ ~(IsFlt(a) /\ Kind(b) = "u" /\ v[1] < 0)                         \* negative float to unsigned: undefined in C
+  /\ ~(~IsFlt(a) /\ Kind(b) = "u" /\ Bits(b) > 16 /\ v < 0)            \* wraps to a value outside the modelled integer range
+  /\ ~(~IsFlt(a) /\ b = "f2" /\ Abs(v) > 2048)                        \* not exactly representable in float16
 
 \* ---- element-wise ufuncs.  F2(f, dt, x, y): both operands already cast to the loop dtype dt
 Cmp == {"less", "less_equal", "greater", "greater_equal", "equal", "not_equal"}
